@@ -5,10 +5,6 @@ Require Import Zrs.lib.RsPrelude Zrs.gen.Generated Zrs.model.BitIO Zrs.model.Bit
 Require Import Zrs.proofs.C12_Desc Zrs.proofs.C12_Norm Zrs.proofs.C12_NormHalf Zrs.proofs.C13_WeightFinal.
 Open Scope Z_scope.
 
-(** the histogram of the weights up to the largest one *)
-Definition zmax_list (l : list Z) : Z := fold_right Z.max 0 l.
-Definition occ (s : Z) (l : list Z) : Z := Z.of_nat (count_occ Z.eq_dec l s).
-Definition weight_hist (data : list Z) : list Z := map (fun n => occ (Z.of_nat n) data) (seq 0 (S (Z.to_nat (zmax_list data)))).
 
 Lemma zmax_ge l x : In x l -> x <= zmax_list l.
 Proof. induction l as [|y t IH]; [contradiction|]. cbn [zmax_list fold_right]. fold (zmax_list t). intros [->|H]; [lia|]. specialize (IH H). lia. Qed.
